@@ -154,6 +154,28 @@ def burst_sessions(rng, n):
     return out
 
 
+KNOWN_KEY = "async-lsp-concurrency-limit"
+
+
+def concurrency_limit_probe(bindir):
+    """The known finding of the async-lsp router (NOT part of the vfs/salsa protocol modelled in Sched.v): more
+    requests in flight than ConcurrencyLayer::default() admits (= available_parallelism) stall the main loop.
+    Reproduced with the process pinned to one CPU (limit 1) and 3 hover requests back-to-back; when pinning is
+    impossible, with available_parallelism + 2 requests whose tasks are parked at task.start.  No notification is
+    involved after the document is open and idle.  Returns (script, out, in_flight, limit, how)."""
+    pin = sl.pin_to_one_cpu()
+    if pin is not None:
+        n, limit, holds, how = 3, 1, [], "process pinned to one CPU (sched_setaffinity), 3 hover requests back-to-back"
+    else:
+        limit = sl._NCPU
+        n = limit + 2
+        holds = [{"point": "task.start", "until": "main.never", "max_ms": 1200, "arm_after_step": 2}]
+        how = "%d hover requests back-to-back, their tasks parked at task.start for 1.2 s" % n
+    steps = [{"open": "main.td", "text": MAIN1}, {"wait_idle": True}] + [req_step("hover") for _ in range(n)] + [{"wait_idle": True}]
+    sc = base_script(steps, holds, watchdog=3500)
+    return sc, sl.run_session(bindir, sc, preexec_fn=pin), n, limit, how
+
+
 def effective(out):
     """a hold did what it was meant to do: the parked thread was released by the awaited event"""
     return any(e.get("ev") == "released" and e.get("by") == "event" for e in out.get("log", []))
@@ -249,6 +271,25 @@ def run(ctx):
                 trace_fail.append({"session": s["name"], "script": s["script"], "model_verdict": verdict,
                                    "verdict_against_pre_fix_protocol": old, "items": items,
                                    "events_around": events[max(0, (pos or 0) - 6):(pos or 0) + 3]})
+
+    # ---- the known finding of the async-lsp router: reproduced on every run, matched by its shape only
+    known = vlib.known_keys("C08")
+    psc, pout, pn, plimit, phow = concurrency_limit_probe(bindir)
+    pwhy = sl.session_failure(psc, pout)
+    probe = {"how": phow, "in_flight": pn, "limit": plimit, "observed": pwhy or "all answered"}
+    if pwhy is not None:
+        answered = sum(1 for e in pout["log"] if e.get("ev") == "response" and e.get("id", 0) > 0)
+        shape = (not pout.get("crashed") and not pout.get("server_exited") and pn > plimit and bool(pout.get("unanswered"))
+                 and pout.get("max_version") == 0 and not [e for e in pout["log"] if e.get("ev") == "panic"])
+        probe["answered"] = answered
+        if shape and KNOWN_KEY in known:
+            ctx.known(KNOWN_KEY, "%d hover requests in flight with a concurrency limit of %d (%s): %d answered, then the async-lsp main loop "
+                      "stalls for ever (dependency defect, outside the vfs/salsa lock protocol of C08_live) [%s]" % (pn, plimit, phow, answered, KNOWN_KEY))
+        else:
+            found.append({"class": "probe", "name": "requests over the concurrency limit: " + phow, "script": psc, "observed": pwhy,
+                          "first_run": pwhy, "threads_parked_at": sl.where_parked(pout), "hooks": True,
+                          "log_tail": [e for e in pout.get("log", []) if e.get("ev") != "sync"][-8:]})
+    ctx.cov["known_finding_probe"] = probe
 
     # ---- verdict
     for f in found[:3]:
